@@ -30,7 +30,7 @@ def run(ctx):
         # vectorString echoes the constructor argument, so the schema's pattern must hold for every
         # *accepted* string: the raw-acceptance facts (prefix literal, untransformed fields, two-way
         # split, table-checked key and value) are discharged here
-        keep = ("C04.raw", "C04.prefix", "C04.store.raw", "C04.store.split", "C04.store.key", "C04.store.value")
+        keep = ("C04.raw", "C04.prefix", "C04.store.raw", "C04.store.split", "C04.store.key", "C04.store.value", "C04.semantic.overaccept", "C04.semantic.store")
         parse_summary(ctx, v, RelabelLedger(led, "C10.vectorString.accept", keep=keep, strip="C04."))
     for v in (2, 3, 4):
         n += RJ.check_c10(ctx, led, v)
